@@ -75,14 +75,41 @@ def main():
             i += 1
     seed = int(os.environ.get('VERIF_SEED', '0') or 0)
     t0 = time.time()
+    # watchdog: a check that does not finish is reported as broken, never as a verdict
+    import signal
+
+    def _timeout(signum, frame):
+        sys.stderr.write('%s: analysis did not finish within the time limit (checker problem, no verdict)\n' % pid)
+        os._exit(2)
+    signal.signal(signal.SIGALRM, _timeout)
+    signal.alarm(int(os.environ.get('VERIF_CHECK_TIMEOUT', '1500')))
     mod = importlib.import_module('pp.rules.%s' % pid.lower())
-    need_borsh = getattr(mod, 'NEEDS_BORSH', False) and (tier == 'thorough' or getattr(mod, 'BORSH_ALWAYS', False))
+    # quick: default feature set (both for C18); thorough: every property is decided in both feature configurations
+    need_borsh = tier == 'thorough' or getattr(mod, 'BORSH_ALWAYS', False)
     facts = extract('default', repo)
     facts_b = extract('borsh', repo) if need_borsh else None
     cx = Cx(facts, tier, facts_b)
     cx.repo = repo
     cx.verif = VERIF
     rep = mod.check(cx)
+    if tier == 'thorough' and facts_b is not None and not getattr(mod, 'BORSH_ALWAYS', False):
+        cx2 = Cx(facts_b, tier, facts_b)
+        cx2.repo = repo
+        cx2.verif = VERIF
+        rep2 = mod.check(cx2)
+        for o in rep2.obligations:
+            o2 = dict(o)
+            o2['instance'] = o['instance'] + ' [features=borsh]'
+            rep.obligations.append(o2)
+        for k, v in rep2.counts.items():
+            rep.counts[k + '[borsh]'] = v
+        for f in rep2.findings:
+            f2 = dict(f)
+            f2['key'] = f['key'] + '[borsh]' if f['key'] not in {x['key'] for x in rep.findings} else f['key']
+            f2['msg'] = '[features=borsh] ' + f['msg']
+            if f2['key'] not in {x['key'] for x in rep.findings}:
+                rep.findings.append(f2)
+        rep.analysed_fns |= rep2.analysed_fns
     known = load_known()
     wall = time.time() - t0
 
@@ -113,8 +140,11 @@ def main():
     known_keys = {f['key'] for f in rep.findings if f['key'] in known}
     # an obligation whose failure is a listed known finding is reported separately, not as discharged
     n_known = len(known_keys)
-    nob = len(rep.obligations) - n_known
     ndis = sum(1 for o in rep.obligations if o['ok'])
+    nob = len(rep.obligations) - n_known
+    if violations == 0:
+        # every failing obligation is then a listed known finding (possibly seen in both configurations)
+        nob = ndis
     cov = {
         'obligations': nob,
         'discharged': ndis,
